@@ -98,7 +98,7 @@ def run_segy(case, ctx):
     required = mode in ('thorough', 'exhaustive', 'strip') or inside
     compared = 0
     with SgzReader(out) as r:
-        nstored = len(set(int(r.segy_traceheader_template[k]) for k in r.stored_header_keys))
+        nstored = oracles.Spec(out).narr
         strata.add('arrays>=3' if nstored >= 3 else 'arrays<3')
         # file headers
         if bytes(r.headerbytes[4096:4096 + 3600]) != src['file_header']:
